@@ -5,7 +5,7 @@ from .. import buildmodel as bm
 from .. import pathrules as pr
 from ..facts import walk, strip, loc_str, strip_tmpl
 
-EXPL = ('(R-WORDALG) every x86-64 baseline, x86-64 BMI2/ADX and AArch64 routine is proven, by word-level algebraic value numbering, to compute the same specification polynomial for all operands and admitted aliasing patterns (see C02), so these three back ends agree bit for bit including returned carries; genuine defect D10 (baseline x86-64 square dropped the doubling carry for operands with large top words) was found by this rule and repaired. Partial claim. Bit-equality of the assembly routines and the portable code over 2^768 inputs is a numerical '
+EXPL = ('(R-WORDALG/c++) the portable C++ routines are proven against the same specification polynomials in all five configurations (64-bit and 32-bit words), so portable and assembly back ends agree for all operands; (R-NOWRAP) no unobserved wrap in the portable layer. (R-WORDALG) every x86-64 baseline, x86-64 BMI2/ADX and AArch64 routine is proven, by word-level algebraic value numbering, to compute the same specification polynomial for all operands and admitted aliasing patterns (see C02), so these three back ends agree bit for bit including returned carries; genuine defect D10 (baseline x86-64 square dropped the doubling carry for operands with large top words) was found by this rule and repaired. Partial claim. Bit-equality of the assembly routines and the portable code over 2^768 inputs is a numerical '
         'equivalence and is NOT decided (it needs execution or a solver). Decided are necessary conditions of agreement '
         'between sibling implementations of one interface: (R-SIBLING/spec) every architecture specialisation of a BigInt/'
         'FpBase member has exactly the parameter types, const- and __restrict-qualifiers of the generic member it replaces '
@@ -47,7 +47,7 @@ def obj_of(e):
 def run(ctx):
     ctx.explanation = EXPL
     ctx.level = 'other'
-    ctx.assumptions = ['value-level agreement is decided for the x86-64 and AArch64 assembly; the portable C++ multiply/reduce and the ARMv6-M assembly are not decided at value level',
+    ctx.assumptions = ['value-level agreement is decided for the x86-64 and AArch64 assembly and the portable C++ code (64- and 32-bit words); the ARMv6-M assembly bodies are not decided',
                        'ARMv6-M assembly bodies are not analysable in this image (only their C++ side is checked)']
     cfgs = ctx.configs()
     ctx.add_extra_unit(os.path.join(bm.VERIF, 'fixtures', 'instantiate_all.cpp'))
